@@ -9,6 +9,28 @@ set_option linter.unusedVariables false
 namespace Aiocoap.BwServer
 open TD
 
+-- `del` with the KeyError swallowed -----------------------------------------------------------
+
+theorem delIf_lookup_self {ν : Type} (c : TD Key ν) (k : Key) : alookup k (delIf c k).items = none := by
+  unfold delIf TD.del
+  cases hl : alookup k c.items with
+  | none => simpa using hl
+  | some v => simpa using alookup_aerase_self _ _
+
+theorem delIf_lookup_ne {ν : Type} (c : TD Key ν) {k k' : Key} (h : k' ≠ k) :
+    alookup k' (delIf c k).items = alookup k' c.items := by
+  unfold delIf TD.del
+  cases hl : alookup k c.items with
+  | none => rfl
+  | some v => simpa using alookup_aerase_ne h _
+
+/-- deleting only ever removes entries -/
+theorem delIf_lookup_some {ν : Type} {c : TD Key ν} {k k' : Key} {v : ν}
+    (h : alookup k' (delIf c k).items = some v) : alookup k' c.items = some v := by
+  by_cases hk : k' = k
+  · subst hk; rw [delIf_lookup_self] at h; cases h
+  · rwa [delIf_lookup_ne c hk] at h
+
 -- closed forms of Block1Spool.feed_and_take ----------------------------------------------------
 
 theorem feed_none {T now : Nat} {sp : TD Key Msg} {req : Msg} (h : req.block1 = none) :
@@ -23,7 +45,8 @@ theorem feed_first {T now : Nat} {sp : TD Key Msg} {req : Msg} {b : Blk}
     (h : req.block1 = some b) (h0 : b.num = 0) :
     feedAndTake T now sp req =
       if b.more then (sp.set T now (blockKey req) req, .cont b)
-      else (((sp.set T now (blockKey req) req)).accessed T now (blockKey req), .pass req) := by
+      else (delIf (((sp.set T now (blockKey req) req)).accessed T now (blockKey req)) (blockKey req),
+            .pass req) := by
   simp [feedAndTake, h, h0, get_set_self]
 
 theorem feed_unknown {T now : Nat} {sp : TD Key Msg} {req : Msg} {b : Blk}
@@ -48,8 +71,8 @@ theorem feed_append_ok {T now : Nat} {sp : TD Key Msg} {req self self' : Msg} {b
     (ha : appendRequestBlock self req b = .ok self') :
     feedAndTake T now sp req =
       if b.more then ((sp.accessed T now (blockKey req)).mutate (blockKey req) self', .cont b)
-      else (((sp.accessed T now (blockKey req)).mutate (blockKey req) self').accessed T now
-              (blockKey req), .pass self') := by
+      else (delIf (((sp.accessed T now (blockKey req)).mutate (blockKey req) self').accessed T now
+              (blockKey req)) (blockKey req), .pass self') := by
   have hl' : alookup (blockKey req) (sp.accessed T now (blockKey req)).items = some self := by
     rw [accessed_items]; exact hl
   have hm : alookup (blockKey req) ((sp.accessed T now (blockKey req)).mutate (blockKey req) self').items
@@ -62,7 +85,8 @@ theorem feed_append_ok {T now : Nat} {sp : TD Key Msg} {req self self' : Msg} {b
 theorem feed_cases (T now : Nat) (sp : TD Key Msg) (req : Msg) (b : Blk) (h : req.block1 = some b) :
     (b.num = 0 ∧ feedAndTake T now sp req =
         if b.more then (sp.set T now (blockKey req) req, .cont b)
-        else (((sp.set T now (blockKey req) req)).accessed T now (blockKey req), .pass req)) ∨
+        else (delIf (((sp.set T now (blockKey req) req)).accessed T now (blockKey req)) (blockKey req),
+              .pass req)) ∨
     (b.num ≠ 0 ∧ alookup (blockKey req) sp.items = none ∧
         feedAndTake T now sp req = (sp, .incomplete)) ∨
     (b.num ≠ 0 ∧ ∃ self e, alookup (blockKey req) sp.items = some self ∧
@@ -72,8 +96,8 @@ theorem feed_cases (T now : Nat) (sp : TD Key Msg) (req : Msg) (b : Blk) (h : re
         appendRequestBlock self req b = .ok self' ∧
         feedAndTake T now sp req =
           if b.more then ((sp.accessed T now (blockKey req)).mutate (blockKey req) self', .cont b)
-          else (((sp.accessed T now (blockKey req)).mutate (blockKey req) self').accessed T now
-                  (blockKey req), .pass self')) := by
+          else (delIf (((sp.accessed T now (blockKey req)).mutate (blockKey req) self').accessed T now
+                  (blockKey req)) (blockKey req), .pass self')) := by
   by_cases h0 : b.num = 0
   · exact Or.inl ⟨h0, feed_first h h0⟩
   · cases hl : alookup (blockKey req) sp.items with
@@ -82,6 +106,24 @@ theorem feed_cases (T now : Nat) (sp : TD Key Msg) (req : Msg) (b : Blk) (h : re
       cases ha : appendRequestBlock self req b with
       | error e => exact Or.inr (Or.inr (Or.inl ⟨h0, self, e, rfl, ha, feed_append_error h h0 hl ha⟩))
       | ok self' => exact Or.inr (Or.inr (Or.inr ⟨h0, self, self', rfl, ha, feed_append_ok h h0 hl ha⟩))
+
+/-- a Block1 request that comes out of `feed_and_take` leaves nothing under its block key: the
+completed assembly is taken out of the spool -/
+theorem feed_pass_absent {T now : Nat} {sp : TD Key Msg} {req m : Msg} {b : Blk}
+    (h : req.block1 = some b) (hp : (feedAndTake T now sp req).2 = .pass m) :
+    alookup (blockKey req) (feedAndTake T now sp req).1.items = none := by
+  rcases feed_cases T now sp req b h with ⟨h0, e⟩ | ⟨h0, _, e⟩ | ⟨h0, self, er, hl, ha, e⟩ |
+      ⟨h0, self, self', hl, ha, e⟩
+  · rw [e] at hp ⊢
+    by_cases hm : b.more = true
+    · simp [hm] at hp
+    · simp only [hm, Bool.false_eq_true, ↓reduceIte]; exact delIf_lookup_self _ _
+  · rw [e] at hp; simp at hp
+  · rw [e] at hp; cases er <;> simp [feedOfErr] at hp
+  · rw [e] at hp ⊢
+    by_cases hm : b.more = true
+    · simp [hm] at hp
+    · simp only [hm, Bool.false_eq_true, ↓reduceIte]; exact delIf_lookup_self _ _
 
 /-- `feed_and_take` never lets a `KeyError` escape -/
 theorem feed_ne_keyError (T now : Nat) (sp : TD Key Msg) (req : Msg) :
@@ -177,13 +219,19 @@ theorem sliceOf_cases (a : Resp) (m : Msg) :
 
 -- closed forms of Block2Cache.extract_or_insert -----------------------------------------------
 
-theorem extract_fresh {T now : Nat} {c : TD Key Resp} {req : Msg} {render : Msg → Resp}
-    (hf : isFresh req = true) :
+theorem extract_fresh {T now : Nat} {c : TD Key Resp} {req : Msg} {render : Msg → Outcome}
+    {a : Resp} (hf : isFresh req = true) (hr : render req = .ok a) :
     extractOrInsert T now c req render =
-      if needsChunking req (render req).payload.length then
-        (c.set T now (blockKey req) (render req), sliceOf (render req) req, true)
-      else (delIf c (blockKey req), .ok (render req), true) := by
-  simp [extractOrInsert, hf]
+      if needsChunking req a.payload.length then
+        (c.set T now (blockKey req) a, sliceOf a req, true)
+      else (delIf c (blockKey req), .ok a, true) := by
+  simp [extractOrInsert, hf, hr]
+
+/-- the handler raises on a request for the beginning: nothing stays kept under the block key -/
+theorem extract_fresh_raised {T now : Nat} {c : TD Key Resp} {req : Msg} {render : Msg → Outcome}
+    {code : Nat} (hf : isFresh req = true) (hr : render req = .error code) :
+    extractOrInsert T now c req render = (delIf c (blockKey req), .raised code, true) := by
+  simp [extractOrInsert, hf, hr]
 
 theorem isFresh_later {req : Msg} {b : Blk} (h : req.block2 = some b) (h0 : b.num ≠ 0) :
     isFresh req = false := by
@@ -196,13 +244,13 @@ theorem needsChunking_later {req : Msg} {b : Blk} (h : req.block2 = some b) (h0 
     (len : Nat) : needsChunking req len = true := by
   simp [needsChunking, h, h0]
 
-theorem extract_later_none {T now : Nat} {c : TD Key Resp} {req : Msg} {render : Msg → Resp}
+theorem extract_later_none {T now : Nat} {c : TD Key Resp} {req : Msg} {render : Msg → Outcome}
     {b : Blk} (h : req.block2 = some b) (h0 : b.num ≠ 0)
     (hl : alookup (blockKey req) c.items = none) :
     extractOrInsert T now c req render = (c, .incomplete, false) := by
   simp [extractOrInsert, isFresh_later h h0, TD.get, hl]
 
-theorem extract_later_some {T now : Nat} {c : TD Key Resp} {req : Msg} {render : Msg → Resp}
+theorem extract_later_some {T now : Nat} {c : TD Key Resp} {req : Msg} {render : Msg → Outcome}
     {b : Blk} {a : Resp} (h : req.block2 = some b) (h0 : b.num ≠ 0)
     (hl : alookup (blockKey req) c.items = some a) :
     extractOrInsert T now c req render =
@@ -253,8 +301,23 @@ theorem step_pass {T : Nat} {st : RState} {i : In} {m : Msg} (hp : Passes T st i
 
 theorem step_no_assembly {T : Nat} {st : RState} {i : In} (ha : i.assemble = false) :
     step T st i = ({ spool := spoolAt T st i, cache := cacheAt T st i },
-                   { resp := i.render i.req, seen := some i.req }) := by
+                   { resp := respondOutcome (i.render i.req), seen := some i.req }) := by
   simp [step, ha, spoolAt, cacheAt]
+
+theorem step_spool_eq (T : Nat) (st : RState) (i : In) :
+    (step T st i).1.spool =
+      if i.assemble then (feedAndTake T i.now (spoolAt T st i) i.req).1 else spoolAt T st i := by
+  by_cases ha : i.assemble = true
+  · simp only [ha, ↓reduceIte]
+    cases hfe : (feedAndTake T i.now (spoolAt T st i) i.req).2 with
+    | cont b => rw [step_cont ha hfe]
+    | incomplete => rw [step_incomplete ha hfe]
+    | badRequest => rw [step_badRequest ha hfe]
+    | keyError => exact absurd hfe (feed_ne_keyError _ _ _ _)
+    | pass m => rw [step_pass ⟨ha, hfe⟩]
+  · have ha' : i.assemble = false := by simpa using ha
+    simp only [ha', Bool.false_eq_true, ↓reduceIte]
+    rw [step_no_assembly ha']
 
 /-- a request without Block1 passes unchanged -/
 theorem passes_plain {T : Nat} {st : RState} {i : In} (ha : i.assemble = true)
@@ -278,7 +341,7 @@ theorem later_of_not_fresh {m : Msg} (h : isFresh m = false) :
 /-- where the second stage takes the representation from: a fresh rendering by the handler, or
 the rendering kept under the block key -/
 def Source (T : Nat) (st : RState) (i : In) (m : Msg) (a : Resp) : Prop :=
-  (isFresh m = true ∧ a = i.render m) ∨
+  (isFresh m = true ∧ i.render m = .ok a) ∨
   (isFresh m = false ∧ alookup (blockKey m) (cacheAt T st i).items = some a)
 
 /-- outcome of the second stage when it has to cut a block out of representation `a` -/
@@ -286,8 +349,7 @@ theorem extract_of_source {T : Nat} {st : RState} {i : In} {m : Msg} {a : Resp}
     (hsrc : Source T st i m a) (hchunk : needsChunking m a.payload.length = true) :
     (extractOrInsert T i.now (cacheAt T st i) m i.render).2 = (sliceOf a m, isFresh m) := by
   rcases hsrc with ⟨hf, ha⟩ | ⟨hf, hl⟩
-  · subst ha
-    rw [extract_fresh hf]; simp [hchunk, hf]
+  · rw [extract_fresh hf ha]; simp [hchunk, hf]
   · obtain ⟨b, hb, h0⟩ := later_of_not_fresh hf
     rw [extract_later_some hb h0 hl]; simp [hf]
 
